@@ -60,6 +60,9 @@ def _pool_sort(p):
 # recurrence-defined spec functions
 # ----------------------------------------------------------------------------------------------
 
+AXIOM_SCHEMAS = {}   # decl name -> fn(app) -> [facts]; assumed library facts instantiated at every occurrence
+
+
 class RecFun:
     """f(p1..pn, k) with f(.., k<=0) = base(ps), f(.., k) = step(ps, k-1, f(.., k-1)).
     Extra passive index parameters are ordinary ps.  The definition is instantiated by `ground`
@@ -544,6 +547,7 @@ class _Grounder:
         self.paired = set()
         self.unfold_depth = unfold_depth
         self.triggers = triggers
+        self.pending_axioms = []
         for t in extra_terms:
             if t.sort() == z3.IntSort():
                 self.pool['idx'][t.get_id()] = t
@@ -638,6 +642,8 @@ class _Grounder:
                     if nm in RecFun.registry:
                         self.recapps.append(e)
                         self.recgen.setdefault(i, max(0, rnd - 1))
+                    if nm in AXIOM_SCHEMAS and rnd < 3:
+                        self.pending_axioms.extend(AXIOM_SCHEMAS[nm](e))
             if s == RefS:
                 pool['ref'][i] = e
             elif s == StrS:
@@ -747,6 +753,9 @@ class _Grounder:
     def step_rec(self, rnd):
         """definitions of recurrence functions at new occurrences + congruence instances for pairs"""
         new = []
+        ax, self.pending_axioms = self.pending_axioms, []
+        for f in ax:
+            new.append((f, f, 1))
         apps, self.recapps = self.recapps, []
         for e in apps:
             rf = RecFun.registry.get(e.decl().name())
